@@ -506,7 +506,7 @@ fn run_case(r: &mut Runner, case: &str) {
     let case = case.trim();
     if let Some(rest) = case.strip_prefix("R ") {
         match dec_str(rest.trim()) {
-            Some(src) => run_raw(r, &src, false),
+            Some(src) => run_raw(r, &src, true),
             None => emit(case, "bad-case", "-"),
         }
     } else if let Some(rest) = case.strip_prefix("T ") {
